@@ -854,7 +854,7 @@ func init() {
 func init() {
 	monitorRegistry["C14"] = func(s *Schedule) []Monitor { return []Monitor{newMonC14()} }
 	nontrivialRule["C14"] = "at least one end-of-block applied a due weight decay (range and initialisation clauses are evaluated after every step regardless)"
-	expectedProbes["C14"] = []string{"c14_multi_interval_decay", "c14_decay_exactly_at_boundary", "c14_clamped_at_min", "c14_clamped_at_max", "c14_warm_up_crossed", "c14_weight_change_op", "c14_weight_change_end", "c14_pending_checked", "c14_decay_configured_by_update", "c14_half_configured_decay_completed"}
+	expectedProbes["C14"] = []string{"c14_multi_interval_decay", "c14_decay_exactly_at_boundary", "c14_clamped_at_min", "c14_clamped_at_max", "c14_warm_up_crossed", "c14_weight_change_op", "c14_weight_change_end", "c14_pending_checked", "c14_decay_configured_by_update", "c14_half_configured_decay_completed", "c14_step_during_warm_up"}
 }
 
 func init() {
